@@ -80,9 +80,9 @@ impl Monitor for C05 {
         }
         // three-level shapes f(A op B): an evaluator that recognises a shape (sqrt of a sum of squares,
         // a product feeding a sum) and takes a shortcut no longer applies the operations node by node
-        for (c, e) in shape_family(ev) {
+        for (c, e) in shape_family(ev).into_iter().chain(repeated_operand_family(ev)) {
             if ctx.mine() {
-                let s = c.replace("{h}", &e);
+                let s = c.replace("{h}", &format!("({})", e));
                 ctx.check(&Case::new(ev, "shape", &s, Val::F(0.0)), &|c, st| {
                     let v = self.judge(c, st);
                     if let Verdict::Pass { .. } = v {
